@@ -632,6 +632,16 @@ QUICK_SCENARIO4 = {
 }
 
 
+# the configuration is the implicit ./gunicorn.conf.py of the start directory, with `chdir` naming another directory: a reload
+# re-reads it from where the master was started
+QUICK_SCENARIO5 = {
+    "conf": {"user": ["str", "nobody"], "group": ["str", "nogroup"], "ig": True, "umask": 0o22, "workers": 1,
+             "worker_class": "sync", "timeout": 2, "via": "cwdfile"},
+    "fake": False, "mgroups": [0],
+    "events": [["hup", 0, None], ["kill", 0], ["hup", 0, {"user": ["str", "daemon"], "group": ["int", 65534], "workers": 2}], ["ttin", 0]],
+}
+
+
 def thorough_scenarios(rng, env, rounds=1):
     out = []
     for _ in range(rounds):
@@ -653,7 +663,7 @@ def thorough_scenarios1(rng, env):
     for i, c in enumerate(confs):
         conf = dict(c)
         conf.update({"umask": rng.choice([0, 0o22, 0o77]), "workers": rng.choice([1, 2, 3]), "worker_class": classes[i], "timeout": 2})
-        via = rng.choice(["file", "file", "cli", "env"])
+        via = rng.choice(["file", "file", "cli", "env", "cwdfile"])
         if via != "file":
             conf["via"] = via
         evs = []
@@ -667,7 +677,7 @@ def thorough_scenarios1(rng, env):
                 # always the oldest live master: a HUP to a re-executed master whose parent is still alive makes it
                 # exit (reload() -> Pidfile.create finds the parent's pid file: RuntimeError) - not a C20 matter
                 # (an identity given on the command line / in the environment is not changed by editing the file)
-                evs.append(["hup", 0, rng.choice([None, {"user": alt["user"], "group": alt["group"], "ig": alt["ig"]}]) if via == "file" else None])
+                evs.append(["hup", 0, rng.choice([None, {"user": alt["user"], "group": alt["group"], "ig": alt["ig"]}]) if via in ("file", "cwdfile") else None])
             elif x < 0.65 and not usr2_done:
                 evs.append(["usr2", 0])
                 usr2_done = True
@@ -794,7 +804,7 @@ def run(ctx):
             ctx.sample(describe(c))
         report_fails(ctx, fails)
         # level 4
-        base = [QUICK_SCENARIO, QUICK_SCENARIO2, QUICK_SCENARIO3, QUICK_SCENARIO4]
+        base = [QUICK_SCENARIO, QUICK_SCENARIO2, QUICK_SCENARIO3, QUICK_SCENARIO4, QUICK_SCENARIO5]
         scens = base if quick else base + thorough_scenarios(ctx.rng, env, 4)
         hist_cases = []
         for scen in scens:
